@@ -784,7 +784,7 @@ class Shelxfile():
             elif line.startswith('+'):
                 pass
             elif word == 'TITL':
-                self.titl = line[5:76]
+                self.titl = line[4:76].strip()
                 lastcard = 'TITL'
             else:
                 if not line.strip():
